@@ -4,9 +4,10 @@
 import PowHsm.Spec.C01
 import PowHsm.Proofs.Chunks
 import PowHsm.Proofs.Monad
+import PowHsm.Proofs.Sign
 namespace PowHsm
 namespace Props.C01
-open Dongle
+open Dongle M
 
 /-- **Chunking never adds, drops or reorders**: for every device chunk policy (every script),
     every message of a chunked transfer is `CLA cmd op ‖ piece` and the pieces concatenate to a
@@ -39,6 +40,67 @@ theorem chunk_independence (cmd op : UInt8) (nexts : List UInt8) (data : Bytes)
     payloads (sendChunksAux cmd op nexts data true 0 i2 s2).2.1 := by
   rw [(chunks_success_complete cmd op nexts data i1 s1 r1 h1).1,
       (chunks_success_complete cmd op nexts data i2 s2 r2 h2).1]
+
+/-- **Signing relays to the device exactly what the client asked to have signed** — for every
+    device behaviour (every script): all that is sent during an authorized signature are SIGN
+    messages carrying, in this order, the path with the input index, then a prefix of the
+    transaction part (`LE32 length ‖ mode ‖ LE16 ‖ unsigned tx ‖ extra data`), then a prefix of
+    the receipt, then a prefix of the framed merkle proof — nothing else, nothing reordered; and
+    **whenever a signature is returned, every part was sent in full** -/
+theorem sign_relays_exactly (a : SignAuthArgs) (w : World) :
+    ∃ as1 as2 as3 as4 : List Bytes,
+      (signAuthorized a w).evs = (as1 ++ as2 ++ as3 ++ as4).map Ev.apdu ∧
+      (as1 = [] ∨ as1 = [pathMsg a]) ∧
+      PartOf OP_BTC_TX ((btcPayload a).getD []) as2 ∧ PartOf OP_TX_RECEIPT a.receipt as3 ∧
+      PartOf OP_MERKLE_PROOF ((proofPayload a.proof).getD []) as4 ∧
+      (∀ rr ss, (signAuthorized a w).val = .ok (.sig rr ss) →
+        as1 = [pathMsg a] ∧ btcPayload a = some (payloads as2) ∧ payloads as3 = a.receipt ∧
+        proofPayload a.proof = some (payloads as4)) := by
+  unfold signAuthorized
+  split
+  · exact ⟨[], [], [], [], rfl, Or.inl rfl, partOf_nil _ _, partOf_nil _ _, partOf_nil _ _,
+      fun rr ss hv => by simp [M.throw'] at hv⟩
+  · have h1e := signStep1_evs a w
+    rcases step_then (signStep1 a) (signTail2 a) w with ⟨h1, h1'⟩ | ⟨x, hx, h2, h2'⟩
+    · exact ⟨[pathMsg a], [], [], [], by rw [h1, h1e]; rfl, Or.inr rfl, partOf_nil _ _, partOf_nil _ _,
+        partOf_nil _ _, fun rr ss hv => absurd hv (h1' rr ss)⟩
+    · obtain ⟨as2, as3, as4, he, hp2, hp3, hp4, hs⟩ := tail2_spec a x (signStep1 a w).w
+      refine ⟨[pathMsg a], as2, as3, as4, ?_, Or.inr rfl, hp2, hp3, hp4, ?_⟩
+      · rw [h2, h1e, he]; simp
+      · intro rr ss hv
+        rw [h2'] at hv
+        exact ⟨rfl, hs rr ss hv⟩
+
+/-- **an unauthorized signature sends exactly one message**: the path followed by the hash the
+    client gave, whatever the device answers -/
+theorem sign_hash_relays_exactly (path : List Nat) (h : Bytes) (w : World) :
+    (signUnauthorized path (some h) w).evs = [.apdu (CLA :: CMD_SIGN :: OP_PATH :: (Bip32.toBinary path ++ h))] := by
+  unfold signUnauthorized
+  simp only
+  rw [bind_evs_silent, catchResult, tryCatchIf_evs_silent, bind_evs_silent, sendCommand_evs]
+  · intro resp
+    refine Emits.bind (idx_emits _ _) fun rop => ?_
+    split
+    · exact Emits.pure _
+    · split <;> exact Emits.pure _
+  · intro e
+    split
+    · exact Emits.pure _
+    · exact Emits.throw _
+  · intro r
+    split <;> exact Emits.pure _
+
+/-- non-vacuity of `sign_relays_exactly`: a complete authorized signature (device asks for 255
+    bytes each time) returns the device's signature after exactly four messages -/
+example :
+    let a : SignAuthArgs := { path := [1, 2, 3, 4, 5], receipt := [1, 2, 3], proof := [[9]], btcTx := [7, 7],
+                              input := 0, segwit := false }
+    let w : World := { script := [.data [0x80, 2, 2, 255], .data [0x80, 2, 4, 255], .data [0x80, 2, 8, 255],
+                                  .data [0x80, 2, 0x81, 0x30, 6, 2, 1, 5, 2, 1, 6]] }
+    (match (signAuthorized a w).val with | .ok (.sig r s) => r == [5] && s == [6] | _ => false) = true ∧
+    apdus (signAuthorized a w).evs = [pathMsg a, [0x80, 2, 2, 9, 0, 0, 0, 0, 0, 0, 7, 7], [0x80, 2, 4, 1, 2, 3],
+      [0x80, 2, 8, 1, 1, 9]] := by
+  decide +kernel
 
 /-- non-vacuity: a 5-byte part, a device asking 2, 255, 1 bytes and then for the next part -/
 example :
